@@ -397,6 +397,7 @@ func drive(ck *Check, tier string, seed int64) int {
 		return 2
 	}
 	defer os.RemoveAll(tmp)
+	os.RemoveAll(filepath.Join(VerifDir, "replays", ck.ID)) // replay files belong to the run that wrote them
 	results := make([]*shardResult, n)
 	errs := make([]string, n)
 	var wg sync.WaitGroup
